@@ -7,7 +7,7 @@ CHECK = dict(
              "(surface, multiset of (operation, hostile string class)).",
         jobs=[REPLAY,
               plain("sanity", "TestVerifSanity"),
-              rapid("prop", "TestVerifProp", 24_000, 960_000, sq=16, st=16),
+              rapid("prop", "TestVerifProp", 48_000, 480_000, sq=16, st=16),
               fuzz("fuzz", "FuzzVerifExtract", 180)],
         technique="property-based testing (rapid): hostile-name grammar applied to tar members, artifact titles, digests/tags/descriptors and "
                   "manifests; in-process regctl (cobra) against a fake registry and OCI layouts; oracle = recursive before/after listing of a "
